@@ -127,7 +127,13 @@ class World:
                     self.net.add_destination(self.el[op[1]], self.N[2])
                 return "ok"
             if k == "tofun":
-                F = self.cs.to_function(self.net, compact=0, T=PARS["T"])
+                eng_ = self.cs
+                if len(op) > 1 and op[1] == "other":
+                    # compiled by ANOTHER CasADi engine object, built for the other symbol type: what is compiled is the
+                    # network's step, whoever compiles it
+                    from sym_metanet.engines.casadi import Engine as Cs_
+                    eng_ = Cs_("MX" if type(self.cs.var("probe_", 1)).__name__ == "SX" else "SX")
+                F = eng_.to_function(self.net, compact=0, T=PARS["T"])
                 self.last_F = F
                 els = sorted({nm.split("_")[-1] for nm in F.name_in()})
                 ids = sorted(i for i, n in NAMES.items() if n in els)
@@ -205,6 +211,8 @@ def directed_histories():
     T = ("tofun",)
     return [
         [T], [("stepall", "sym"), T], [("init", 0, "sym"), T],
+        [("stepall", "sym"), ("tofun", "other")], [("add", 4), ("stepall", "sym"), ("tofun", "other")],
+        [("stepall", "sym"), ("init", 0, "sym"), ("tofun", "other")],
         [("stepall", "sym"), ("init", 2, "same"), T], [("stepall", "sym"), ("init", 0, "same"), T],
         [("add", 4), ("stepall", "sym"), ("init", 4, "same"), T], [("stepall", "sym"), ("init", 2, "same"), ("stepel", 2), T],
         [("init", 0, "sym"), ("init", 1, "sym"), ("init", 2, "sym"), ("init", 3, "sym"), T],
